@@ -183,21 +183,29 @@ let show_fibst (st : fibst) : string =
 (* decimal strings of uint64 compared numerically *)
 let dec_lt a b = String.length a < String.length b || (String.length a = String.length b && a < b)
 
-(* spec-level check of a RIB entry: (nextHop1, lowest1), (nextHop2, lowest2) are the two least (cost, hash) pairs among
-   the next hops with cost < infinity; (0, infinity) when there is none *)
+(* spec-level check of a RIB entry, insensitive to how ties are broken (which of several equal-cost hops is called best is not
+   constrained by C19; determinism of the choice is C18's concern): (nextHop1, lowest1) is a next hop of least cost below
+   infinity, (nextHop2, lowest2) a next hop of least cost below infinity among the others; (0, infinity) where there is none *)
 let check_rib_entry dest =
   match List.assoc_opt dest !t_costs, List.assoc_opt dest !t_levels with
   | Some (h1, h2, costs), Some (l1, l2) ->
       let inf = dec_of_n cost_infinity in
       let fin = List.filter (fun (_, _, c) -> dec_lt c inf) costs in
-      let sorted = List.sort (fun (_, ha, ca) (_, hb, cb) ->
-        if ca = cb then (if ha = hb then 0 else if dec_lt ha hb then -1 else 1) else if dec_lt ca cb then -1 else 1) fin in
-      let e1, e2 = match sorted with
-        | [] -> ("0", inf), ("0", inf)
-        | [(_, h, c)] -> (h, c), ("0", inf)
-        | (_, h, c) :: (_, h', c') :: _ -> (h, c), (h', c') in
-      if (h1, l1) <> e1 || (h2, l2) <> e2 then
-        oracle "rib-two-least" (Printf.sprintf "dest=%s has (%s,%s),(%s,%s) expected (%s,%s),(%s,%s)" dest h1 l1 h2 l2 (fst e1) (snd e1) (fst e2) (snd e2))
+      let min_cost l = List.fold_left (fun m (_, _, c) -> match m with None -> Some c | Some x -> if dec_lt c x then Some c else m) None l in
+      let bad why = oracle "rib-two-least" (Printf.sprintf "dest=%s has (%s,%s),(%s,%s): %s" dest h1 l1 h2 l2 why) in
+      (match min_cost fin with
+       | None -> if (h1, l1) <> ("0", inf) || (h2, l2) <> ("0", inf) then bad "no next hop below infinity, expected (0,inf),(0,inf)"
+       | Some m1 ->
+           if l1 <> m1 then bad ("best cost should be " ^ m1)
+           else if not (List.exists (fun (_, h, c) -> h = h1 && c = l1) fin) then bad "best next hop does not have that cost"
+           else begin
+             let rest = List.filter (fun (_, h, _) -> h <> h1) fin in
+             match min_cost rest with
+             | None -> if (h2, l2) <> ("0", inf) then bad "no other next hop below infinity, expected (0,inf) as second"
+             | Some m2 ->
+                 if l2 <> m2 then bad ("second-best cost should be " ^ m2)
+                 else if not (List.exists (fun (_, h, c) -> h = h2 && c = l2) rest) then bad "second next hop does not have that cost"
+           end)
   | _ -> ()
 
 let fib_tab (f : string list) =
